@@ -101,6 +101,25 @@ def designed_histories():
                         continue
                     out.append(dict(cfg=dict(base, clear_every=ce,
                                              form=form), ops=ops))
+    # Lambda != 0 with matter given as fluid variables: T_mu_nu is computed
+    # (and cached) on the way, so the Ricci tensor has two routes
+    fl = cases.generic_FL(2, periodic=False)
+    cfg_fl = dict(base, spec=fl["spec"], Lambda=0.25, matter="fluid",
+                  N=[9, 9, 10], order=2, t=0.4)
+    for ce in (30, 2):
+        for first in ("Ttrace", "press_n", "Tdown4", "rho_n"):
+            out.append(dict(cfg=dict(cfg_fl, clear_every=ce),
+                            ops=[G(first), G("st_Ricci_down4"),
+                                 G("st_RicciS"), G("Einsteindown4"),
+                                 G("st_Ricci_down3"), G("Kretschmann")]))
+    tr = dict(base, extra_inputs=["tracer"])
+    for ce in (1, 2, 3):
+        out.append(dict(cfg=dict(tr, clear_every=ce,
+                                 freeze=["freeze_data", "load_data",
+                                         "hand_then_load_data"][ce - 1]),
+                        ops=[G("tracer"), G("alpha")]
+                        + [G(f) for f in FILL] + [G("tracer"), G("gtt"),
+                                                  G("Ktrace"), G("tracer")]))
     sts = dict(op="helper", helper="s_to_st", ix="dd",
                field=dict(shape=[3, 3], const=None, modes=[dict(
                    A=[[0.5, 0.2, -0.3], [0.2, 0.4, 0.1], [-0.3, 0.1, 0.6]],
